@@ -1,6 +1,6 @@
 """what MANIFEST.json claims per property (tools/mkmanifest.py turns this into the manifest)"""
 
-FIX_COMMITS = ['0369c7c', 'e5963ae', '7c0fb30', '7b59f02', '74366c8', 'b68f84c', 'a968b66', 'a15d91b', '2992cec', '3ad884d']
+FIX_COMMITS = ['0369c7c', 'e5963ae', '7c0fb30', '7b59f02', '74366c8', 'b68f84c', 'a968b66', 'a15d91b', '2992cec', '3ad884d', '2fb3194']
 
 _NOTE = ('bounded: holds for every value of the symbolic inputs inside the boxes and sizes '
          'listed in the evidence file, nothing is claimed outside; trusted: CPython, z3, the '
@@ -163,6 +163,15 @@ CLAIMS = {
                 'log and every path proves: each grant is the one the policy serves next and is '
                 'legal in that state, and at the end of every time step no request the policy '
                 'would serve next is grantable.',
+        'note': _NOTE,
+    },
+    'C18': {
+        'text': 'Trigger, wait, timeout, interrupt and until dates are symbolic (waiting before / '
+                'at / after the trigger, simultaneous members, two interrupts in one step, '
+                'interrupt after the end are solver-explored branches); every path proves resume '
+                'instants and values for processes and native activities, callbacks exactly once, '
+                'second trigger refused, AllOf/AnyOf instants and exposed members, '
+                'run(until) stopping exactly at the date / event, and the embedded case.',
         'note': _NOTE,
     },
 }
